@@ -28,3 +28,18 @@ Model/Dec.vos Model/Dec.vok Model/Dec.required_vos: Model/Dec.v Model/Values.vos
 Model/Enc.vo Model/Enc.glob Model/Enc.v.beautified Model/Enc.required_vo: Model/Enc.v Model/Values.vo Gen/Tables.vo Gen/Formats.vo Model/Dec.vo
 Model/Enc.vio: Model/Enc.v Model/Values.vio Gen/Tables.vio Gen/Formats.vio Model/Dec.vio
 Model/Enc.vos Model/Enc.vok Model/Enc.required_vos: Model/Enc.v Model/Values.vos Gen/Tables.vos Gen/Formats.vos Model/Dec.vos
+Extract/Extract.vo Extract/Extract.glob Extract/Extract.v.beautified Extract/Extract.required_vo: Extract/Extract.v Model/Dec.vo Model/Enc.vo Model/Values.vo
+Extract/Extract.vio: Extract/Extract.v Model/Dec.vio Model/Enc.vio Model/Values.vio
+Extract/Extract.vos Extract/Extract.vok Extract/Extract.required_vos: Extract/Extract.v Model/Dec.vos Model/Enc.vos Model/Values.vos
+Spec/Iana.vo Spec/Iana.glob Spec/Iana.v.beautified Spec/Iana.required_vo: Spec/Iana.v 
+Spec/Iana.vio: Spec/Iana.v 
+Spec/Iana.vos Spec/Iana.vok Spec/Iana.required_vos: Spec/Iana.v 
+Proofs/Enum.vo Proofs/Enum.glob Proofs/Enum.v.beautified Proofs/Enum.required_vo: Proofs/Enum.v Model/Dec.vo
+Proofs/Enum.vio: Proofs/Enum.v Model/Dec.vio
+Proofs/Enum.vos Proofs/Enum.vok Proofs/Enum.required_vos: Proofs/Enum.v Model/Dec.vos
+Proofs/C11.vo Proofs/C11.glob Proofs/C11.v.beautified Proofs/C11.required_vo: Proofs/C11.v Model/Dec.vo Model/Enc.vo Spec/Iana.vo Proofs/Enum.vo
+Proofs/C11.vio: Proofs/C11.v Model/Dec.vio Model/Enc.vio Spec/Iana.vio Proofs/Enum.vio
+Proofs/C11.vos Proofs/C11.vok Proofs/C11.required_vos: Proofs/C11.v Model/Dec.vos Model/Enc.vos Spec/Iana.vos Proofs/Enum.vos
+Props/C11.vo Props/C11.glob Props/C11.v.beautified Props/C11.required_vo: Props/C11.v Model/Dec.vo Model/Enc.vo Spec/Iana.vo Proofs/Enum.vo Proofs/C11.vo
+Props/C11.vio: Props/C11.v Model/Dec.vio Model/Enc.vio Spec/Iana.vio Proofs/Enum.vio Proofs/C11.vio
+Props/C11.vos Props/C11.vok Props/C11.required_vos: Props/C11.v Model/Dec.vos Model/Enc.vos Spec/Iana.vos Proofs/Enum.vos Proofs/C11.vos
